@@ -55,6 +55,14 @@ CONFIG = {
   "level_text": "Machine-checked theorems (Lean 4): any non-zero error pattern confined to 32 consecutive bits (every single-bit flip, any damage within 4 consecutive bytes, damage inside the trailer) turns a verifying file of any length into a rejected one; files shorter than the trailer are rejected; the trailer check is exactly crc32(payload)=LE trailer; the instruction codec round-trips for all instruction lists not ending in Ret (counterexample theorem for the Ret case, a latent defect). Tied to the code by differential runs against crc32fast and ParsedProgram::from_bytes/to_bytes. Partial: header, sections and constant decoding and the no-unbounded-allocation clause are not modelled.",
   "level_note": "Trusted: Lean kernel + propext/Classical.choice/Quot.sound; the harness; that the loader calls verify_crc_trailer_seek first (observed: every damaged file is rejected). Truncations are covered by exhaustive per-file sweeps, not by a theorem (a truncated file passes the CRC with probability 2^-32).",
  },
+ "C11": {
+  "engine": "core",
+  "rule": "random tilings of results up to 4x4 (thorough: up to 12x12) by 1-4 block rows of 1-4 blocks, each block a scalar, 1x1, row vector, column vector or matrix, element kinds rotated over all 16; one case in ten has a block of the wrong height, one in ten a wrong width, one in ten a block of another kind; distinct = distinct case lines",
+  "trusted": ["blocks are bound to variables and the literal is written over the variables (entries that are literals take the same code path)"],
+  "assumptions": ["no empty matrices, no option-typed entries"],
+  "level_text": "Machine-checked theorems (Lean 4) over a model of horzcat/vertcat on column-major buffers, for any number of rows and blocks and all block shapes: whenever a literal with block entries evaluates, element (i, j) of the result is the element of the block covering (i, j) when rows are laid side by side and stacked (litGet), the result is well formed, blocks of different heights in a row and rows of different widths are rejected; the two binary kernels are characterised separately. Tied to the code by differential runs over random tilings incl. invalid ones and mixed kinds.",
+  "level_note": "Trusted: Lean kernel + propext/Classical.choice/Quot.sound; harness rendering. Kind preservation holds by construction in the model (one element type); mixed kinds are rejected in the driver as in the code and checked by the correspondence.",
+ },
  "C15": {
   "engine": "core",
   "rule": "10 integer kinds x boundary-anchored (min, max, 0, small) start/end x {no step, zero, negative, positive step} x {inclusive, exclusive} x {immutable, mutable operands}; f32/f64 with dyadic operands (exact arithmetic) incl. literal operands; distinct = distinct case lines",
